@@ -121,7 +121,7 @@ Section History.
                    end
                  else [] in
       let l := l0 ++ lop in
-      let aborts := map (fun _ => CAbort ord) (filter (fun e => match e with EAbort => true | _ => false end) l) in
+      let aborts := map (fun _ => CAbort ord) (filter is_abort l) in
       if active s1 then
         (* finally of the recording scope (:80-104) *)
         let '(keep, used) := should_sample draws (w_dpos w) P (force s1) in
